@@ -209,9 +209,19 @@ def run_replay_file(path, strict=True):
 FUZZ = {
     # property -> campaigns (cargo-fuzz target, cargo features of the fuzz crate, max_len, runs per process, processes)
     "C01": [("fz_c01", "", 256, 1_500_000, 6), ("fz_c01", "compact", 256, 1_500_000, 6)],
+    "C02": [("fz_c02", "", 16, 4_000_000, 6), ("fz_c02", "compact", 16, 4_000_000, 6)],
     "C04": [("fz_c04", "", 64, 3_000_000, 8), ("fz_c04", "radix", 64, 1_500_000, 8)],
+    "C05": [("fz_c05", "radix", 1400, 300_000, 12)],
+    "C06": [("fz_c06", "power-of-two", 16, 1_500_000, 8)],
+    "C07": [("fz_c06", "radix", 16, 1_000_000, 10)],
+    "C08": [("fz_c08", "radix,format", 64, 400_000, 12)],
+    "C09": [("fz_c09", "", 64, 1_500_000, 6), ("fz_c09", "radix,format", 64, 400_000, 10)],
     "C10": [("fz_c10", "", 512, 1_500_000, 6), ("fz_c10", "radix,format", 512, 250_000, 10)],
     "C11": [("fz_c10", "", 512, 1_500_000, 6), ("fz_c10", "radix,format", 512, 250_000, 10)],
+    "C12": [("fz_c12", "radix,format", 40, 600_000, 12)],
+    "C13": [("fz_c12", "radix,format", 40, 600_000, 12)],
+    "C14": [("fz_c14", "", 64, 1_500_000, 6), ("fz_c14", "radix,format", 64, 400_000, 10)],
+    "C19": [("fz_c05", "radix", 1400, 300_000, 12)],
 }
 
 
